@@ -879,7 +879,7 @@ proof fn lemma_u32_product(a: int, b: int)
     -> (res: bool) ensures
         //# C08.lazy_pad_condition
         res == (c.pos.0 != header_row_idx)
-//@@ before /if cells\.first\(\)/
+//@@ before /if [^{;]*cells\.first\(\)/
                 let ghost kept = cells@;
                 proof { assert(stream.take(stream.len() as int) =~= stream); }
 //@@ before /Ok\(Range::from_sparse/
@@ -1021,7 +1021,7 @@ impl Xlsx<VerifRs> {
     -> (res: bool) ensures
         //# C08.lazy_pad_condition
         res == (c.pos.0 != header_row_idx)
-//@@ before /if cells\.first\(\)/
+//@@ before /if [^{;]*cells\.first\(\)/
                 let ghost kept = cells@;
                 proof { assert(stream.take(stream.len() as int) =~= stream); }
 //@@ before /Ok\(Range::from_sparse/
